@@ -132,7 +132,35 @@ func classifyErrUses(v ssa.Value) *errUse {
 						}
 					}
 				case *ssa.FreeVar:
-					u.other++
+					// a variable of the enclosing function assigned from inside a
+					// closure: follow its reads there
+					followed := false
+					fn := a.Parent()
+					if par := fn.Parent(); par != nil {
+						k := -1
+						for i, fv := range fn.FreeVars {
+							if fv == a {
+								k = i
+							}
+						}
+						eachInstr(par, func(_ *ssa.BasicBlock, j ssa.Instruction) {
+							mc, ok := j.(*ssa.MakeClosure)
+							if !ok || mc.Fn != ssa.Value(fn) || k < 0 || k >= len(mc.Bindings) {
+								return
+							}
+							if cell, ok := mc.Bindings[k].(*ssa.Alloc); ok && cell.Referrers() != nil {
+								for _, r2 := range *cell.Referrers() {
+									if ld, ok := r2.(*ssa.UnOp); ok && ld.Op == token.MUL {
+										followed = true
+										walk(ld, d+1)
+									}
+								}
+							}
+						})
+					}
+					if !followed {
+						u.other++
+					}
 				}
 			case ssa.CallInstruction:
 				u.passed = append(u.passed, x)
